@@ -176,6 +176,26 @@ fn marker_probes() -> Vec<Probe> {
             add(row.clone(), "send_sync_marker", true, format!("is_send::<{}>();", t("u8", "Cell<u8>")));
         }
     }
+    // iterators that hand out `&mut V` must not be duplicable (a copy would yield a second live `&mut V`);
+    // the shared ones are Clone (positive control)
+    for it in mutable.iter() {
+        let row = format!("iterator {}", it);
+        let t = format!("caches::lru::{}<'static, u64, String>", it);
+        add(row.clone(), "mutable_iterator_not_duplicable", true, format!("fn is_clone<T: Clone>() {{}}\n    is_clone::<{}>();", t));
+    }
+    for it in shared.iter() {
+        let row = format!("iterator {}", it);
+        let t = format!("caches::lru::{}<'static, u64, String>", it);
+        add(row.clone(), "mutable_iterator_not_duplicable", false, format!("fn is_clone<T: Clone>() {{}}\n    is_clone::<{}>();", t));
+    }
+    for (ctor, name) in [("iter_mut", "MRUIterMut"), ("iter_lru_mut", "LRUIterMut"), ("values_mut", "ValuesMRUIterMut"), ("values_lru_mut", "ValuesLRUIterMut")] {
+        add(
+            format!("iterator {}", name),
+            "mutable_iterator_not_duplicable",
+            true,
+            format!("let mut c: caches::RawLRU<u64, String> = caches::RawLRU::new(2).unwrap(); c.put(1, String::new());\n    let a = c.{}();\n    let b = Clone::clone(&a);\n    use_it(a); use_it(b);", ctor),
+        );
+    }
     let caches = [
         ("RawLRU", "caches::RawLRU<{K}, {V}>"),
         ("SegmentedCache", "caches::SegmentedCache<{K}, {V}>"),
